@@ -12,7 +12,7 @@ import ast
 import collections
 
 from .model import AnalysisError, Unfoldable, Folder, FEnumMember, ClassRef, FuncRef, norm
-from .interp import Interp, Raised, Unsupported, NEXT, BREAK, CONTINUE, strip_doc
+from .interp import Interp, Raised, Unsupported, NEXT, BREAK, CONTINUE, BROKE, strip_doc
 
 INF = 'inf'
 MAX_PATHS = 4000
@@ -1289,7 +1289,7 @@ class ConsInterp(Interp):
                     if isinstance(b, Raised):
                         outs.append((('raise', b.exc, b), s1))
                     elif not b:
-                        outs.append((NEXT, s1))
+                        outs += self.block(n.orelse, s1) if n.orelse else [(NEXT, s1)]
                     elif it < 2:
                         for out, s2 in self.block(n.body, s1):
                             if out in (NEXT, CONTINUE):
@@ -1336,7 +1336,7 @@ class ConsInterp(Interp):
                                 if out in (NEXT, CONTINUE):
                                     nxt.append(s3)
                                 elif out == BREAK:
-                                    outs.append((NEXT, s3))
+                                    outs.append((BROKE, s3))
                                 else:
                                     outs.append((out, s3))
                     frontier = nxt
